@@ -11,6 +11,7 @@ import (
 	"strings"
 
 	"golang.org/x/tools/go/cfg"
+	"golang.org/x/tools/go/types/typeutil"
 
 	"verif/checker/internal/core"
 	"verif/checker/internal/gee"
@@ -4814,5 +4815,191 @@ func ruleShorthandArrayWithoutDimensions(c *core.Ctx) {
 	})
 	if n == 0 {
 		c.Undecided(rule, "anchor/Dimensions store", d.Pos(), "applyTypeTail never sets Array.Dimensions")
+	}
+}
+
+// CN1 (C08): the context namespace is threaded through unchanged. In the generators "contextNamespace" is the namespace
+// whose output file is being written; a type of another namespace is printed qualified relative to it. The string
+// parameters that carry it are found by flow, starting from the parameters of that name: a parameter of a function or
+// local closure that receives a context namespace at some call site is a context slot too (whatever it is called).
+// A function or closure that holds a context namespace passes it — its own — to every context slot it calls: passing
+// another namespace's name (the namespace the type comes from, a shadowing variable) prints / registers names relative
+// to the wrong file.
+func ruleContextNamespaceThreaded(c *core.Ctx) {
+	const rule = "CN1"
+	const seed = "contextNamespace"
+	c.Rule(rule, "internal/*: a function or closure that holds the context namespace (a string parameter named contextNamespace, or one that receives such a value at a call site) passes it, unchanged, to every callee parameter that carries the context namespace", 35)
+	type fn struct {
+		d      *ast.FuncDecl
+		info   *types.Info
+		typ    *ast.FuncType
+		body   *ast.BlockStmt
+		parent *fn
+		self   types.Object // the *types.Func, or the variable a closure is bound to
+	}
+	var fns []*fn
+	byObj := map[types.Object]*fn{}
+	for _, d := range c.AllDecls() {
+		p := c.DeclPkg(d)
+		if p == nil || d.Body == nil || c.IsTestFile(d.Pos()) || !strings.HasPrefix(p.PkgPath, core.Mod+"/internal/") {
+			continue
+		}
+		info := p.TypesInfo
+		top := &fn{d: d, info: info, typ: d.Type, body: d.Body, self: info.Defs[d.Name]}
+		fns = append(fns, top)
+		byObj[top.self] = top
+		var collect func(n ast.Node, parent *fn)
+		collect = func(n ast.Node, parent *fn) {
+			ast.Inspect(n, func(nn ast.Node) bool {
+				var lit *ast.FuncLit
+				var bound types.Object
+				switch x := nn.(type) {
+				case *ast.AssignStmt:
+					if len(x.Lhs) == 1 && len(x.Rhs) == 1 {
+						if l, ok := x.Rhs[0].(*ast.FuncLit); ok {
+							lit, bound = l, identObj(info, x.Lhs[0])
+						}
+					}
+				case *ast.ValueSpec:
+					if len(x.Names) == 1 && len(x.Values) == 1 {
+						if l, ok := x.Values[0].(*ast.FuncLit); ok {
+							lit, bound = l, info.Defs[x.Names[0]]
+						}
+					}
+				case *ast.FuncLit:
+					lit = x
+				}
+				if lit == nil {
+					return true
+				}
+				f := &fn{d: d, info: info, typ: lit.Type, body: lit.Body, parent: parent, self: bound}
+				fns = append(fns, f)
+				if bound != nil {
+					byObj[bound] = f
+				}
+				collect(lit.Body, f)
+				return false
+			})
+		}
+		collect(d.Body, top)
+	}
+	isString := func(t types.Type) bool {
+		b, ok := t.Underlying().(*types.Basic)
+		return ok && b.Kind() == types.String
+	}
+	params := func(f *fn) []types.Object {
+		var out []types.Object
+		if f.typ.Params != nil {
+			for _, fl := range f.typ.Params.List {
+				if len(fl.Names) == 0 {
+					out = append(out, nil)
+				}
+				for _, n := range fl.Names {
+					out = append(out, f.info.Defs[n])
+				}
+			}
+		}
+		return out
+	}
+	ctx := map[types.Object]bool{} // parameter objects that carry the context namespace
+	for _, f := range fns {
+		for _, o := range params(f) {
+			if o != nil && o.Name() == seed && isString(o.Type()) {
+				ctx[o] = true
+			}
+		}
+	}
+	// the context value a function holds: its own context parameter, else the enclosing function's
+	held := func(f *fn) types.Object {
+		for g := f; g != nil; g = g.parent {
+			for _, o := range params(g) {
+				if o != nil && ctx[o] {
+					return o
+				}
+			}
+		}
+		return nil
+	}
+	calleeOf := func(f *fn, call *ast.CallExpr) *fn {
+		if o := typeutil.Callee(f.info, call); o != nil {
+			return byObj[o]
+		}
+		return byObj[identObj(f.info, call.Fun)]
+	}
+	ownCalls := func(f *fn, visit func(*ast.CallExpr)) {
+		ast.Inspect(f.body, func(nn ast.Node) bool {
+			if _, ok := nn.(*ast.FuncLit); ok {
+				return false
+			}
+			if call, ok := nn.(*ast.CallExpr); ok {
+				visit(call)
+			}
+			return true
+		})
+	}
+	// the argument's object, explaining locals (`cn := contextNamespace`) resolved
+	argObj := func(f *fn, a ast.Expr) types.Object {
+		for i := 0; i < 3; i++ {
+			id, ok := ast.Unparen(a).(*ast.Ident)
+			if !ok {
+				return nil
+			}
+			r := singleDefRHS(f.info, f.d.Body, id)
+			if r == ast.Expr(id) {
+				return f.info.ObjectOf(id)
+			}
+			a = r
+		}
+		return nil
+	}
+	for changed := true; changed; {
+		changed = false
+		for _, f := range fns {
+			h := held(f)
+			if h == nil {
+				continue
+			}
+			ownCalls(f, func(call *ast.CallExpr) {
+				g := calleeOf(f, call)
+				if g == nil || call.Ellipsis.IsValid() {
+					return
+				}
+				ps := params(g)
+				for i, a := range call.Args {
+					// inference stops at package boundaries: the exported string helpers of formatting/common take any string
+					if i < len(ps) && ps[i] != nil && !ctx[ps[i]] && isString(ps[i].Type()) && argObj(f, a) == h && c.DeclPkg(g.d) == c.DeclPkg(f.d) {
+						ctx[ps[i]] = true
+						changed = true
+					}
+				}
+			})
+		}
+	}
+	for _, f := range fns {
+		h := held(f)
+		if h == nil {
+			continue
+		}
+		seen := map[string]int{}
+		ownCalls(f, func(call *ast.CallExpr) {
+			g := calleeOf(f, call)
+			if g == nil || call.Ellipsis.IsValid() {
+				return
+			}
+			ps := params(g)
+			for i, a := range call.Args {
+				if i >= len(ps) || ps[i] == nil || !ctx[ps[i]] {
+					continue
+				}
+				callee := types.ExprString(call.Fun)
+				seen[callee]++
+				key := fmt.Sprintf("%s/%s#%d", c.FuncName(f.d), callee, seen[callee])
+				if argObj(f, a) == h {
+					c.OK(rule, key, call.Pos(), "passes the context namespace it holds to parameter `"+ps[i].Name()+"`")
+				} else {
+					c.Bad(rule, key, a.Pos(), fmt.Sprintf("%s receives `%s` in its context-namespace parameter `%s` although the calling function holds the context namespace `%s`: names are printed / registered relative to another namespace than the one being written", callee, types.ExprString(a), ps[i].Name(), h.Name()))
+				}
+			}
+		})
 	}
 }
